@@ -5,6 +5,7 @@ About `getArgsSel` / `getArgNames` / `evalReadouts` / `getFluxes`, the functions
 (queries `argsf`, `argnames`, `argsftc`, `fluxes`).  Helper lemmas: Lemmas/ArgsSel.lean.
 -/
 import MxlVerif.Lemmas.ArgsSel
+import MxlVerif.Lemmas.ReadoutsSorted
 import MxlVerif.Lemmas.StoichRow
 import MxlVerif.Lemmas.TimeCourse
 namespace Mxl.C01
@@ -15,44 +16,38 @@ open Mxl
     dict `raw` which
     * agrees with the environment `_get_args` built (the one of `C01_rhs_is_Nv`) on every name that is
       neither a data set nor — when readouts are requested — a readout;
-    * when readouts are requested, holds for every readout the value it has in a final scope that
-      differs from `raw | data` only on the readouts, and in which every readout that names neither
-      itself nor a readout declared after it equals its function applied to the values its arguments
-      have there (readouts may name data sets and earlier readouts). -/
+    * when readouts are requested (their names distinct from each other and from everything else in
+      the table — the shared name space), holds for every readout the value it has in a final scope
+      that differs from `raw | data` only on the readouts and in which EVERY readout equals its
+      function applied to the values its arguments have there — readouts may name data sets and
+      other readouts declared before or after them (the readouts are evaluated in dependency order,
+      after the repair of F-C01-3). -/
 theorem C01_args_selected {c : Content} {vars : Option (List (Name × Rat))} {t : Rat}
     {f : ArgFlags} {l : List (Name × Rat)} (hro : (omKeys c.readouts).Nodup)
     (h : getArgsSel c vars t f = .ok l) :
     ∃ (cache : Cache) (env raw : Env), createCache c = .ok cache ∧
       getArgsEnv c cache (resolveVars cache vars) t = .ok env ∧
       l.map (·.1) = getArgNames c cache f ∧ (∀ kv ∈ l, raw.lookup kv.1 = some kv.2) ∧
-      (∀ n, n ∉ omKeys c.data → (f.readouts = false ∨ n ∉ omKeys c.readouts) →
-        raw.lookup n = env.lookup n) ∧
-      (f.readouts = true → ∃ scope' : Env,
-        (∀ n, n ∉ omKeys c.readouts →
-          scope'.lookup n = (dropData (omKeys c.data) env ++ c.data).lookup n) ∧
-        (∀ k ∈ omKeys c.readouts, raw.lookup k = scope'.lookup k ∧ (scope'.lookup k).isSome) ∧
-        (∀ pre k ro suf, c.readouts = pre ++ (k, ro) :: suf →
-          (∀ a ∈ ro.args, a ≠ k ∧ a ∉ omKeys suf) → (Comp.fn ro).Holds k scope')) := by
+      (f.readouts = false → ∀ n, n ∉ omKeys c.data → raw.lookup n = env.lookup n) ∧
+      (f.readouts = true →
+        (∀ k ∈ omKeys c.readouts, k ∉ (dropData (omKeys c.data) env ++ c.data).map (·.1)) →
+        ∃ scope' : Env,
+          (∀ n, n ∉ omKeys c.readouts →
+            scope'.lookup n = (dropData (omKeys c.data) env ++ c.data).lookup n ∧
+            (n ∉ omKeys c.data → raw.lookup n = env.lookup n)) ∧
+          (∀ k ∈ omKeys c.readouts, raw.lookup k = scope'.lookup k ∧ (scope'.lookup k).isSome) ∧
+          (∀ k ro, c.readouts.lookup k = some ro → (Comp.fn ro).Holds k scope')) := by
   obtain ⟨cache, env, raw, h1, h2, h3, hk, hv⟩ := getArgsSel_ok h
   refine ⟨cache, env, raw, h1, h2, hk, hv, ?_, ?_⟩
-  · intro n hnd hn
+  · intro hf n hnd
     unfold readoutPass at h3
-    by_cases hf : f.readouts = true
-    · rw [if_pos hf] at h3
-      obtain ⟨scope', hfr, _, _⟩ := evalReadouts_spec _ _ _ _ hro h3
-      have hnr : n ∉ omKeys c.readouts := by
-        rcases hn with hn | hn
-        · rw [hf] at hn; cases hn
-        · exact hn
-      rw [(hfr n hnr).2, dropData_lookup _ _ _ hnd]
-    · rw [if_neg hf] at h3
-      simp only [pure, Except.pure, Except.ok.injEq] at h3
-      rw [← h3, dropData_lookup _ _ _ hnd]
-  · intro hf
-    unfold readoutPass at h3
-    rw [if_pos hf] at h3
-    obtain ⟨scope', hfr, hro', hholds⟩ := evalReadouts_spec _ _ _ _ hro h3
-    exact ⟨scope', fun n hn => (hfr n hn).1, hro', hholds⟩
+    rw [if_neg (by simp [hf])] at h3
+    simp only [pure, Except.pure, Except.ok.injEq] at h3
+    rw [← h3, dropData_lookup _ _ _ hnd]
+  · intro hf hfresh
+    obtain ⟨scope', hfr, hro', hholds⟩ := readoutPass_all_hold hro hfresh hf h3
+    refine ⟨scope', fun n hn => ⟨(hfr n hn).1, fun hnd => ?_⟩, hro', hholds⟩
+    rw [(hfr n hn).2, dropData_lookup _ _ _ hnd]
 
 /-- **`get_fluxes` is `get_args` restricted to the reaction and surrogate-flux groups** (no flux is
     named like a data set — the shared name space). -/
@@ -110,14 +105,13 @@ example : getArgsSel exRo none 0 { readouts := true } =
 
 example : getArgsSel exRo none 0 fluxFlags = .ok [("r", 6)] := by decide +kernel
 
-/-- F-C01-3 (known finding), witnessed on the model: a readout naming a readout declared AFTER it is
-    rejected with `KeyError`, the other declaration order of the same two readouts returns numbers —
-    which is why `C01_args_selected` promises `Holds` only for readouts that name no later readout. -/
+/-- F-C01-3 (repaired): a readout naming a readout declared AFTER it gets the same numbers as in the
+    other declaration order (only the order of the readout group in the table follows the declaration) -/
 def exLater : Content :=
   { exRo with readouts := [("b", ⟨["a"], fun v => 2 * v.getD 0 0⟩),
                             ("a", ⟨["r", "dat"], fun v => v.getD 0 0 + v.getD 1 0⟩)] }
 
-example : getArgsSel exLater none 0 { readouts := true } = .error (.keyError "a") := by decide +kernel
-example : (getArgsSel exRo none 0 { readouts := true }).toOption.isSome = true := by decide +kernel
+example : getArgsSel exLater none 0 { readouts := true } =
+    .ok [("time", 0), ("x", 2), ("p", 3), ("r", 6), ("b", 22), ("a", 11)] := by decide +kernel
 
 end Mxl.C01
